@@ -240,66 +240,112 @@ def _r4(chk, repo, ci):
 
 
 def _r5(chk, repo, ci):
-    """Samples.funvals / vector / parameters as decision tables over the representation flags (sa/pathtable.py): which valuations return
-    the object itself, and which geometry map converts the samples on the others; the per-sample loop and the flags of the result by
-    metavariable patterns over the views of the getter."""
-    from .common import canon_fn, stmts
-    from ..pathtable import table, callable_text
-    from ..pattern import norm as pn, unify
+    """Samples.funvals / vector / parameters as decision tables over the representation flags (sa/pathtable.py). For every valuation the getter is
+    followed along its path with the per-sample loop stepped over: identity valuations must return self; on the others the returned value must be
+    Samples(<freshly allocated array>, <flags>, geometry=self.geometry), the path must contain exactly one loop `for i, v in enumerate(self)` whose body
+    is the single store `<that array>[..., i] = C(v)`, and C - with locals replaced by their bindings on the path and conditional expressions resolved by
+    the valuation - must be the geometry map the valuation calls for."""
+    import itertools
+    from .common import canon_fn, KwCanon
+    from ..pathtable import walk, callable_text, _fold_ifexp, _Sub
+    from ..pattern import norm as pn
+    from ..canon import clone as _clone
     G = "self.geometry"
+    kc = KwCanon().add("Samples", repo.method(ci, "__init__")[1])
     table_spec = {
-        # name: (atoms, identity predicate, converter per valuation, store pattern, result pattern, allocation)
+        # name: (atoms, identity predicate, converter per valuation, last-axis index form, expected flags of the result, allocation)
         "funvals": (["self.is_par", "self.is_vec", "self.geometry.fun_is_array"], lambda P, V, A: (not P) and (not V),
-                    lambda P, V, A: f"{G}.par2fun" if P else f"{G}.vec2fun", "$out[...,$i]=$c($v)",
-                    "return Samples($out,is_par=False,is_vec=$iv,geometry=self.geometry)", None),
-        "vector": (["self.is_par", "self.is_vec"], lambda P, V: V or P, lambda P, V: f"{G}.fun2vec", "$out[...,$i]=$c($v)",
-                   "return Samples($out,is_par=self.is_par,is_vec=True,geometry=self.geometry)", "$out=np.empty((self.geometry.funvec_dim,self.Ns))"),
+                    lambda P, V, A: f"{G}.par2fun" if P else f"{G}.vec2fun", "...", {"is_par": "False", "is_vec": None}, None),
+        "vector": (["self.is_par", "self.is_vec"], lambda P, V: V or P, lambda P, V: f"{G}.fun2vec", "...",
+                   {"is_par": "self.is_par", "is_vec": "True"}, "np.empty((self.geometry.funvec_dim,self.Ns))"),
         "parameters": (["self.is_par", "self.is_vec"], lambda P, V: P,
-                       lambda P, V: f"lambda _a0:{G}.fun2par({G}.vec2fun(_a0))" if V else f"{G}.fun2par", "$out[:,$i]=$c($v)",
-                       "return Samples($out,is_par=True,is_vec=True,geometry=self.geometry)", None),
+                       lambda P, V: f"lambda _a0:{G}.fun2par({G}.vec2fun(_a0))" if V else f"{G}.fun2par", ":",
+                       {"is_par": "True", "is_vec": "True"}, None),
     }
-    for name, (atoms, ident, conv, store, result, alloc) in table_spec.items():
+    for name, (atoms, ident, conv, axis, flags, alloc) in table_spec.items():
         p = ci.props.get(name)
         if p is None or p.getter is None:
             raise AnchorError(f"Samples.{name} not found")
         src = p.getter
         fn = canon_fn(repo, ci, src, 1)
-        problems = []
-        S = stmts(repo, ci, src)
-        b, _ = unify(["for: ($i,$v) : enumerate(self)", store, result], S)
-        if b is None:
-            problems.append(f"per-sample conversion along the last axis (`{store}` in `for i, value in enumerate(self)`) or the result `{result}` (flags/geometry) missing")
-        if alloc and b is not None and unify([alloc], S, b)[0] is None:
-            problems.append("vector result is not allocated as (funvec_dim, Ns)")
-        if name == "vector" and any(".reshape(" in t for t, _ in S):
-            problems.append("function values are flattened by a raw reshape instead of the geometry's fun2vec (ignores the geometry's storage order)")
-        cname = b["c"] if b else "convert"
-        tb = table(fn, atoms, pn)
-        undec = None
-        for bits, (kind, res) in sorted(tb.items(), reverse=True):
+        problems, undec = [], None
+        natoms = [pn(a_) for a_ in atoms]
+        for bits in itertools.product((True, False), repeat=len(atoms)):
             if name == "funvals" and not bits[2]:
                 continue                       # the list-valued branch (function values that are not arrays) is outside this rule
-            want_identity = ident(*bits)
-            case = ", ".join(f"{a.split('.')[-1]}={v}" for a, v in zip(atoms, bits))
-            if kind == "unknown":
-                undec = res
-                break
-            if want_identity:
-                if not (kind == "return" and res == "self"):
-                    problems.append(f"[{case}] the object is already in the requested representation but is not returned unchanged")
-            else:
-                if kind == "return" and res == "self":
-                    problems.append(f"[{case}] returns the object unchanged although a conversion is needed")
-                elif kind == "loop":
-                    env, _node = res
-                    cv = env.get(cname)
-                    got = callable_text(cv, pn) if cv is not None else "?"
-                    want = pn(conv(*bits)) if not conv(*bits).startswith("lambda") else conv(*bits).replace(" ", "")
-                    if got.replace(" ", "") != want.replace(" ", ""):
-                        problems.append(f"[{case}] samples are converted by `{got}`, expected `{conv(*bits)}`")
-                else:
-                    undec = f"[{case}] conversion path not recognised ({kind})"
+            val = dict(zip(natoms, bits))
+            case = ", ".join(f"{a_.split('.')[-1]}={v}" for a_, v in zip(atoms, bits))
+            from ..pathtable import walk_paths
+            stop = False
+            for kind, res in walk_paths(fn, val, pn, skip_loops=True):          # tests outside the flags (storage form, ...) are followed both ways
+                if kind == "unknown":
+                    undec = f"[{case}] {res}"
+                    stop = True
                     break
+                if ident(*bits):
+                    if not (kind == "return" and pn(res) == "self"):
+                        problems.append(f"[{case}] the object is already in the requested representation but is not returned unchanged")
+                    continue
+                if kind == "return" and pn(res) == "self":
+                    problems.append(f"[{case}] returns the object unchanged although a conversion is needed")
+                    continue
+                if kind != "return":
+                    undec = f"[{case}] conversion path not recognised ({kind})"
+                    stop = True
+                    break
+                raw, loops = res._raw, res._loops
+                call = kc.visit(_clone(res))
+                if not (isinstance(call, ast.Call) and call_name(call) == "Samples" and not call.args):
+                    problems.append(f"[{case}] the result is `{pn(res)[:80]}`, not a Samples object")
+                    continue
+                kw = {k.arg: k.value for k in call.keywords}
+                if pn(kw.get("geometry", ast.Constant(value=None))) != G:
+                    problems.append(f"[{case}] the result does not carry the object's geometry")
+                for fl, wv in flags.items():
+                    if wv is not None and pn(_fold_ifexp(kw.get(fl, ast.Constant(value=None)), val, pn)) != pn(wv):
+                        problems.append(f"[{case}] the result is flagged {fl}={pn(kw.get(fl, ast.Constant(value=None)))}, expected {wv}")
+                if alloc and pn(kw.get("samples", ast.Constant(value=None))) != pn(alloc):
+                    problems.append("vector result is not allocated as (funvec_dim, Ns)")
+                rawcall = raw if isinstance(raw, ast.Call) else None
+                rawkw = {}
+                if rawcall is not None:
+                    rk = kc.visit(_clone(rawcall))
+                    rawkw = {k.arg: k.value for k in rk.keywords} if isinstance(rk, ast.Call) else {}
+                out = path_of(rawkw.get("samples")) if rawkw.get("samples") is not None else None
+                if not loops:
+                    problems.append(f"[{case}] the result's array is `{pn(kw.get('samples', ast.Constant(value=None)))[:90]}`: it is not filled sample by sample "
+                                    f"through the geometry's map (a raw reshape / copy ignores the geometry's storage order)")
+                    continue
+                if len(loops) != 1 or out is None:
+                    undec = f"[{case}] expected one per-sample loop filling the returned array (found {len(loops)})"
+                    stop = True
+                    break
+                lenv, lp = loops[0]
+                it_ok = pn(_Sub(lenv).visit(_clone(lp.iter))) == "enumerate(self)" and isinstance(lp.target, ast.Tuple) and len(lp.target.elts) == 2 \
+                    and all(isinstance(t_, ast.Name) for t_ in lp.target.elts)
+                body = [s_ for s_ in lp.body if not isinstance(s_, ast.Pass)]
+                st = body[0] if len(body) == 1 else None
+                if not it_ok or not (isinstance(st, ast.Assign) and len(st.targets) == 1 and isinstance(st.targets[0], ast.Subscript)
+                                     and path_of(st.targets[0].value) == out and isinstance(st.value, ast.Call) and len(st.value.args) == 1 and not st.value.keywords):
+                    if any(isinstance(x, ast.Attribute) and x.attr == "reshape" for x in ast.walk(lp)):
+                        problems.append("function values are flattened by a raw reshape instead of the geometry's fun2vec (ignores the geometry's storage order)")
+                    else:
+                        problems.append(f"[{case}] per-sample conversion `{out}[{axis}, i] = C(sample)` in `for i, sample in enumerate(self)` not found")
+                    continue
+                i_, v_ = lp.target.elts[0].id, lp.target.elts[1].id
+                if pn(st.targets[0].slice) not in (pn(f"({axis},{i_})"), pn(f"{axis},{i_}")) or path_of(st.value.args[0]) != v_:
+                    problems.append(f"[{case}] samples are not written along the last axis by index (`{pn(st)}`)")
+                cv = st.value.func
+                cv = lenv.get(cv.id, cv) if isinstance(cv, ast.Name) else _Sub(lenv).visit(_clone(cv))
+                if not isinstance(cv, ast.FunctionDef):
+                    cv = _fold_ifexp(cv, val, pn)
+                got = callable_text(cv, pn)
+                want = conv(*bits)
+                if got.replace(" ", "") != (pn(want) if not want.startswith("lambda") else want).replace(" ", ""):
+                    problems.append(f"[{case}] samples are converted by `{got}`, expected `{want}`")
+            if stop:
+                break
+        problems = list(dict.fromkeys(problems))
         if undec is not None and not problems:
             chk.unknown("C19-R5", f"{ci.qual}.@{name}", site(repo, src), str(undec), src)
         else:
